@@ -73,6 +73,18 @@ def verdict(contract, module, env, outcome):
                 return 'model-violates-requires', [r]
         if outcome['kind'] == 'return':
             ev['result'] = outcome['value']
+            if contract.yield_key:
+                ks = []
+                for c in outcome['value']:
+                    ks.append(eval(contract.yield_key, dict(ev, c=c)))
+                ev['YKEYS'] = set(ks)
+                if len(set(ks)) != len(ks):
+                    violated.append('yielded keys not pairwise distinct: ' + contract.yield_key)
+            for e in contract.yield_each:
+                for c in outcome['value']:
+                    if not eval(e, dict(ev, c=c)):
+                        violated.append('yielded element violates: ' + e)
+                        break
             for e in contract.ensures + contract.ensures_all + contract.concrete_ensures:
                 if not eval(e, ev):
                     violated.append('ensures: ' + e)
